@@ -11,7 +11,7 @@ CB = ("visitor-callback level: a public visitor method (visit_identifier / visit
       "document and compared with the RFC 8610 meaning of that node")
 
 CLAIMED = {
-    "C01": dict(engines=["E1"], scope=CB + ": prelude scalar types on integer/bool/null JSON documents, integer literals, comparison controls (.ne .lt .le .gt .ge) and integer ranges over the whole i64 range. Type choices, arrays, groups, maps, cuts, .size, rule references and every composition of callbacks (the walk from validate_json_from_str down to the callback) are outside the claim",
+    "C01": dict(engines=["E1"], scope=CB + ": prelude scalar types on integer/bool/null JSON documents, integer literals, comparison controls (.ne .lt .le .gt .ge), `uint .size N` and `tstr .size N` on scalars, and integer ranges, over the whole i64 range (and the u64 range above it for non-negative literals). Type choices, arrays, groups, maps, cuts, rule references and every composition of callbacks (the walk from validate_json_from_str down to the callback) are outside the claim",
                 assumptions=COMMON_E1),
     "C04": dict(engines=["E1"], scope=CB + ": the JSON and the CBOR validator are each compared with the same oracle for the same node and the same integer/bool/null value, so within these bounds they agree with each other; everything that needs more than one callback is outside the claim",
                 assumptions=COMMON_E1),
